@@ -37,44 +37,33 @@ def load_known():
 
 
 def stage1(pid, repo, tier, plan):
-    import z3
     from .contracts import Registry
-    from .engine import Engine, Unsupported
-    from . import solve
-    from . import source as S
+    from . import solve, run
     reg = Registry().load_dir(os.path.join(ROOT, "contracts"))
-    eng = Engine(reg, repo)
-    eng.canaries = True
     funcs = []
-    undecided = []
     for key, fc in reg.funcs.items():
-        if pid not in fc.props:
-            continue
-        info = {"function": key, "assumed": bool(fc.assumed),
-                "note": fc.note}
-        if fc.assumed or not fc.verify:
-            info["status"] = "assumed contract (not verified)"
-            funcs.append(info)
-            continue
-        t0 = time.time()
-        try:
-            eng.verify(fc)
-            info.update(status="under contract", paths=fc.npaths,
-                        exits=fc.exits, source_hash=fc.source_hash,
-                        gen_s=round(time.time() - t0, 2))
-        except Unsupported as e:
-            info["status"] = f"UNDECIDED: {e}"
-            undecided.append((key, str(e)))
-        except S.SourceError as e:
-            info["status"] = f"UNDECIDED: {e}"
-            undecided.append((key, str(e)))
-        funcs.append(info)
-    obs = [ob for ob in eng.obligations
-           if pid in ob.props or ob.kind == "canary"]
+        if pid in fc.props and (fc.assumed or not fc.verify):
+            funcs.append({"function": key, "assumed": True, "note": fc.note,
+                          "status": "assumed contract (not verified)"})
+    keys = run.select_keys(reg, pid=pid)
+    infos, allobs = run.generate(repo, keys)
+    undecided = []
+    used = set()
+    for i in infos:
+        i["assumed"] = False
+        funcs.append(i)
+        used |= set(i.get("assumptions", []))
+        if i.get("status") != "under contract":
+            undecided.append((i["function"], i.get("undecided") or
+                              i.get("error") or i.get("status")))
+    obs = [ob for ob in allobs if pid in ob.props or ob.kind == "canary"]
     t0 = time.time()
-    solve.discharge(obs, eng.global_axioms(), both=(tier == "thorough"))
+    solve.discharge_text(obs, both=(tier == "thorough"))
     solver_wall = time.time() - t0
-    return reg, eng, funcs, obs, undecided, solver_wall
+
+    class E_:  # what the rest of check.main needs from the engine
+        used_assumptions = used
+    return reg, E_, funcs, obs, undecided, solver_wall
 
 
 def run_concrete(pid, repo, tier, seed, cexfile=None, timeout=3000):
